@@ -252,6 +252,9 @@ func genEdit(t *rapid.T, l *light) Edit {
 		l.doms = l.doms[:last]
 		return Edit{Kind: k, IDs: []int{last}}
 	}
+	if rapid.IntRange(0, 3).Draw(t, "specs") == 0 {
+		return Edit{Kind: "list", Flag: "specs"} // the one report that walks the opcode lists and the programs
+	}
 	return Edit{Kind: "list", Flag: rapid.SampledFrom(listFlags).Draw(t, "flag")}
 }
 
